@@ -488,6 +488,15 @@ func (ev *evaluator) binary(x EBinary) *Val {
 func (ev *evaluator) call(x ECall) *Val {
 	st := ev.st
 	eng := st.eng
+	if i := strings.LastIndex(x.Fun, "."); i > 0 {
+		// ghost functions and predicates live in one global namespace: a package qualifier is documentation only
+		base := x.Fun[i+1:]
+		if _, ok := eng.cs.Ghosts[base]; ok {
+			x.Fun = base
+		} else if _, ok := eng.cs.Preds[base]; ok {
+			x.Fun = base
+		}
+	}
 	switch x.Fun {
 	case "old":
 		if len(x.Args) != 1 {
